@@ -287,6 +287,33 @@ def r2(idx, rep):
     rep.check(ok, "R2", f"{ff.file}::FileManager._fingerprint rename only onto a free hash name", "", K.where(ff, ff.node))
 
 
+def _scoped_or_cleared(fn, target, value, stmt):
+    """a store on the instance that cannot outlive the operation: it stores None (clearing a slot), or it is a hand-over slot — the very
+    next statement is a `try` whose `finally` puts None back into the same attribute, so the slot is empty again on every exit"""
+    if not isinstance(target, ast.Attribute):
+        return False
+    def is_none(v):
+        return isinstance(v, ast.Constant) and v.value is None
+    if is_none(value):
+        return True
+    if isinstance(stmt, ast.Assign) and isinstance(stmt.targets[0], ast.Tuple) and isinstance(stmt.value, ast.Tuple) and len(stmt.targets) == 1:
+        for t1, v1 in zip(stmt.targets[0].elts, stmt.value.elts):
+            if t1 is target:
+                return is_none(v1)
+    for blk in ast.walk(fn):
+        for fld in ("body", "orelse", "finalbody"):
+            body = getattr(blk, fld, None)
+            if isinstance(body, list) and stmt in body:
+                i = body.index(stmt)
+                nxt = body[i + 1] if i + 1 < len(body) else None
+                if isinstance(nxt, ast.Try) and nxt.finalbody:
+                    for f_ in nxt.finalbody:
+                        if (isinstance(f_, ast.Assign) and len(f_.targets) == 1 and isinstance(f_.targets[0], ast.Attribute) and unparse(f_.targets[0]) == unparse(target)
+                                and is_none(f_.value)):
+                            return True
+    return False
+
+
 def r3(idx, rep):
     for cls in ("FileManager", "FileRegistrar"):
         ci = idx.cls(cls)
@@ -298,5 +325,6 @@ def r3(idx, rep):
         for mname, m in ci.methods.items():
             if mname == "__init__":
                 continue
-            w = [unparse(t) for t, v, s in stores_in(m.node) if isinstance(t, (ast.Attribute, ast.Subscript)) and unparse(t).startswith("self.")]
+            w = [unparse(t) for t, v, s in stores_in(m.node) if isinstance(t, (ast.Attribute, ast.Subscript)) and unparse(t).startswith("self.")
+                 and not _scoped_or_cleared(m.node, t, v, s)]
             rep.check(not w, "R3", f"{m.file}::{cls}.{mname} stores nothing on the instance", f"{w}", K.where(m, m.node))
